@@ -36,6 +36,7 @@ fn main() {
                 seed = seed.wrapping_mul(1_000_003);
             }
             alloc::configure(prop, &replays);
+            alloc::install_crash_handler();
             if prop == "C03" && !cfg!(miri) {
                 alloc::start_watchdog(if layer == "vg" || layer == "asan" { 600 } else { 90 });
             }
